@@ -47,10 +47,9 @@ pub(crate) fn any_running_st() -> St {
     }
 }
 
-/// breakpoint list of 0..=2 entries, sorted, duplicate-free, all >= orig
-fn any_breakpoints(orig: u16) -> Breakpoints {
-    let n: u8 = kani::any();
-    kani::assume(n <= 2);
+/// breakpoint list of exactly `n` (0..=2, concrete) entries with symbolic addresses, sorted, duplicate-free, all >= orig.
+/// (A list of *symbolic length* makes Vec::insert/remove's memmove intractable -- measured.)
+fn any_breakpoints(orig: u16, n: usize) -> Breakpoints {
     let b = if n == 0 {
         bph::sorted_0()
     } else if n == 1 {
@@ -77,6 +76,9 @@ fn bp_has(b: &Breakpoints, a: u16) -> bool {
 /// An arbitrary debugger over an arbitrary machine.  `light_initial`: the saved initial machine's memory is
 /// left out of the symbolic domain of interest (still an unconstrained object).
 pub(crate) fn any_debugger(state: &mut RunState, status: St) -> Debugger {
+    any_debugger_n(state, status, 2)
+}
+pub(crate) fn any_debugger_n(state: &mut RunState, status: St, nbp: usize) -> Debugger {
     let orig: u16 = orig_of(state);
     let mut init = any_state();
     set_orig(&mut init, orig);
@@ -86,7 +88,7 @@ pub(crate) fn any_debugger(state: &mut RunState, status: St) -> Debugger {
         asm_source: AsmSource::from(orig, Vec::new(), ""),
         command_reader: cmdh::dummy_reader(),
         status: status_of(status),
-        breakpoints: any_breakpoints(orig),
+        breakpoints: any_breakpoints(orig, nbp),
         current_breakpoint: kani::any(),
         instruction_count: kani::any(),
         should_echo_pc: kani::any(),
@@ -157,13 +159,14 @@ macro_rules! dbg_attrs {
 // ------------------------------------------------------------------ C13 (+C17 label resolution): move / goto
 // one arbitrary `move` or `goto` from an arbitrary machine: exactly the named target changes, and only if it
 // is a register or a user-space address; label+offset / PC-offset arithmetic against an i32 reference.
-dbg_attrs! { fn c13_move_goto() {
+fn move_goto_body(mask: u32, lkind: Option<u8>, is_reg: Option<bool>) {
+    cmdh::fix_form(lkind, is_reg);
     let mut s = any_state();
     let orig = orig_of(&s);
     let mut d = any_debugger(&mut s, St::Wait);
     let l = bind_label(orig);
     crate::output::verif_h::set_minimal_any();
-    cmdh::allow(cmdh::C_MOVE | cmdh::C_GOTO, 1, false);
+    cmdh::allow(mask, 1, false);
     let probe: u16 = kani::any();
     let pre = snap(&s);
     let pre_probe = peek(&s, probe);
@@ -186,16 +189,33 @@ dbg_attrs! { fn c13_move_goto() {
                 e.pc = a;
             }
         }
-        kani::cover!(target.is_some() && r.lkind == 2 && r.off < 0);
-        kani::cover!(target.is_none() && r.lkind == 1);
-        kani::cover!(matches!(target, Some(a) if a >= 0x8000));
+        kani::cover!(target.is_some(), "target in user space");
+        kani::cover!(target.is_none(), "target refused");
+        kani::cover!(matches!(target, Some(a) if a >= 0x8000), "target in the upper half of memory");
     }
     crate::runtime::verif_h::assert_effect(&s, &e, probe, pre_probe);
     assert!(matches!(d.status, Status::WaitForAction), "move/goto changed the execution status");
     assert!(d.breakpoints.len() == n_bp, "move/goto changed the breakpoint list");
     assert!(capture::len() == 0, "debugger command wrote to the program's output");
     core::mem::forget(d);
-}}
+}
+macro_rules! move_goto {
+    ($name:ident, $mask:expr, $lkind:expr, $is_reg:expr) => {
+        dbg_attrs! {
+        #[kani::stub(crate::output::Output::print_registers, cut_print_registers)]
+        #[kani::stub(crate::output::Output::print_integer, cut_print_integer)]
+        #[kani::stub(crate::debugger::Debugger::show_assembly_source, cut_show_assembly)]
+        #[kani::stub(crate::debugger::print_help_message, cut_help)]
+        fn $name() { move_goto_body($mask, $lkind, $is_reg); }}
+    };
+}
+move_goto!(c13_move_reg, cmdh::C_MOVE, Some(0), Some(true));
+move_goto!(c13_move_addr, cmdh::C_MOVE, Some(0), Some(false));
+move_goto!(c13_move_pcoff, cmdh::C_MOVE, Some(1), Some(false));
+move_goto!(c13_move_label, cmdh::C_MOVE, Some(2), Some(false));
+move_goto!(c13_goto_addr, cmdh::C_GOTO, Some(0), Some(false));
+move_goto!(c13_goto_pcoff, cmdh::C_GOTO, Some(1), Some(false));
+move_goto!(c13_goto_label, cmdh::C_GOTO, Some(2), Some(false));
 
 // cutters for command arms a harness's command group excludes (they are unreachable under the group's
 // mask; cutting their callees keeps symbolic execution out of them)
@@ -219,16 +239,10 @@ fn cut_help() {
 // HALT at PC, or the step-over return address reached -- and otherwise returns Proceed with the documented
 // successor status, the machine untouched, no program output, breakpoints untouched and the marker re-armed.
 // The only command offered is `quit` (= end of input), so the paused branch is observable too.
-dbg_attrs! {
-#[kani::stub(crate::output::Output::print_registers, cut_print_registers)]
-#[kani::stub(crate::output::Output::print_integer, cut_print_integer)]
-#[kani::stub(crate::debugger::Debugger::show_assembly_source, cut_show_assembly)]
-#[kani::stub(crate::debugger::print_help_message, cut_help)]
-fn c10_running_step() {
+fn running_step_body(st: St) {
     crate::features::verif_h::set_stack(kani::any());
     let mut s = any_state();
     let orig = orig_of(&s);
-    let st = any_running_st();
     let mut d = any_debugger(&mut s, st);
     crate::output::verif_h::set_minimal_any();
     let pc = s.pc();
@@ -272,30 +286,38 @@ fn c10_running_step() {
         // C16 ranking: Proceed is followed by the execution of an instruction (PC in user space, not HALT)
         assert!(pc >= orig && pc < 0xFE00 && !is_halt(w));
     }
-    kani::cover!(must_pause && armed_bp && !halt && !out_of_bounds);
-    kani::cover!(must_pause && pc == 0xFFFF);
-    kani::cover!(!must_pause && matches!(st, St::Fin) && is_ret(w));
-    kani::cover!(!must_pause && matches!(st, St::Into(0)));
-    kani::cover!(!must_pause && pre_marker == Some(pc) && bp_has(&d.breakpoints, pc));
+    kani::cover!(must_pause && armed_bp && !halt && !out_of_bounds, "pause at an armed breakpoint");
+    kani::cover!(must_pause && pc == 0xFFFF, "pause at PC = 0xFFFF");
+    kani::cover!(!must_pause && pre_marker == Some(pc) && bp_has(&d.breakpoints, pc), "resume from the breakpoint just paused at");
+    kani::cover!(!must_pause && is_ret(w), "proceed on a RET/RETS");
     core::mem::forget(d);
-}}
+}
+macro_rules! running_step {
+    ($name:ident, $st:expr) => {
+        dbg_attrs! {
+        #[kani::stub(crate::output::Output::print_registers, cut_print_registers)]
+        #[kani::stub(crate::output::Output::print_integer, cut_print_integer)]
+        #[kani::stub(crate::debugger::Debugger::show_assembly_source, cut_show_assembly)]
+        #[kani::stub(crate::debugger::print_help_message, cut_help)]
+        fn $name() { running_step_body($st); }}
+    };
+}
+running_step!(c10_running_continue, St::Cont);
+running_step!(c10_running_finish, St::Fin);
+running_step!(c10_running_stepinto, St::Into(kani::any()));
+running_step!(c10_running_stepover, St::Over(kani::any()));
 
 // ------------------------------------------------------------------ C10: resuming commands from a pause
 // One arbitrary command from {step, step into k, step out, continue, quit, exit} at a paused debugger
 // (status WaitForAction), arbitrary machine.  The next read is cut, so each path is one command.
-dbg_attrs! {
-#[kani::stub(crate::output::Output::print_registers, cut_print_registers)]
-#[kani::stub(crate::output::Output::print_integer, cut_print_integer)]
-#[kani::stub(crate::debugger::Debugger::show_assembly_source, cut_show_assembly)]
-#[kani::stub(crate::debugger::print_help_message, cut_help)]
-fn c10_resume_commands() {
+fn resume_body(mask: u32) {
     let stack_on: bool = kani::any();
     crate::features::verif_h::set_stack(stack_on);
     let mut s = any_state();
     let orig = orig_of(&s);
     let mut d = any_debugger(&mut s, St::Wait);
     crate::output::verif_h::set_minimal_any();
-    cmdh::allow(cmdh::C_STEPOVER | cmdh::C_STEPINTO | cmdh::C_STEPOUT | cmdh::C_CONTINUE | cmdh::C_QUIT | cmdh::C_EXIT, 1, false);
+    cmdh::allow(mask, 1, false);
     let pc = s.pc();
     let w = peek(&s, pc);
     let probe: u16 = kani::any();
@@ -328,26 +350,36 @@ fn c10_resume_commands() {
             assert!(st_of(&d.status) == expect, "resuming command did not arm the documented stepping mode");
         }
     }
-    kani::cover!(r.sel == 1 && pc == 0xFFFF);
-    kani::cover!(r.sel == 2 && r.count == 0xFFFF && !halt);
-    kani::cover!(r.sel == 4 && halt);
-    kani::cover!(r.sel == 3 && stack_on && !halt);
+    kani::cover!(pc == 0xFFFF, "command issued at PC = 0xFFFF");
+    kani::cover!(halt, "command issued while parked on HALT");
+    kani::cover!(!halt && pc >= orig && pc < 0xFE00, "command issued at an ordinary PC");
     core::mem::forget(d);
-}}
+}
+macro_rules! resume {
+    ($name:ident, $mask:expr) => {
+        dbg_attrs! {
+        #[kani::stub(crate::output::Output::print_registers, cut_print_registers)]
+        #[kani::stub(crate::output::Output::print_integer, cut_print_integer)]
+        #[kani::stub(crate::debugger::Debugger::show_assembly_source, cut_show_assembly)]
+        #[kani::stub(crate::debugger::print_help_message, cut_help)]
+        fn $name() { resume_body($mask); }}
+    };
+}
+resume!(c10_cmd_step, cmdh::C_STEPOVER);
+resume!(c10_cmd_stepinto, cmdh::C_STEPINTO);
+resume!(c10_cmd_stepout, cmdh::C_STEPOUT);
+resume!(c10_cmd_continue, cmdh::C_CONTINUE);
+resume!(c10_cmd_quit, cmdh::C_QUIT);
+resume!(c10_cmd_exit, cmdh::C_EXIT);
 
 // ------------------------------------------------------------------ C11/C13: break add / remove / list
-dbg_attrs! {
-#[kani::stub(crate::output::Output::print_registers, cut_print_registers)]
-#[kani::stub(crate::output::Output::print_integer, cut_print_integer)]
-#[kani::stub(crate::debugger::Debugger::show_assembly_source, cut_show_assembly)]
-#[kani::stub(crate::debugger::print_help_message, cut_help)]
-fn c11_break_commands() {
+fn break_body(mask: u32, nbp: usize) {
     let mut s = any_state();
     let orig = orig_of(&s);
-    let mut d = any_debugger(&mut s, St::Wait);
+    let mut d = any_debugger_n(&mut s, St::Wait, nbp);
     let l = bind_label(orig);
     Output::set_minimal(true); // the non-minimal table printer is text only; minimal mode lists the same addresses
-    cmdh::allow(cmdh::C_BREAKADD | cmdh::C_BREAKREMOVE | cmdh::C_BREAKLIST, 1, false);
+    cmdh::allow(mask, 1, false);
     let probe: u16 = kani::any();
     let pre = snap(&s);
     let pre_probe = peek(&s, probe);
@@ -388,11 +420,27 @@ fn c11_break_commands() {
     if n >= 3 {
         assert!(bph::addr_at(&d.breakpoints, 1) < bph::addr_at(&d.breakpoints, 2));
     }
-    kani::cover!(r.sel == 16 && target.is_some() && n == n_bp + 1);
-    kani::cover!(r.sel == 17 && target.is_some() && n + 1 == n_bp);
-    kani::cover!(r.sel == 16 && target.is_none());
+    kani::cover!(target.is_some() || r.sel == 15, "user-space target (or listing)");
+    kani::cover!(target.is_none(), "target refused");
+    kani::cover!(n != n_bp || r.sel == 15 || nbp == 0, "list changed");
     core::mem::forget(d);
-}}
+}
+macro_rules! break_cmd {
+    ($name:ident, $mask:expr, $n:expr) => {
+        dbg_attrs! {
+        #[kani::stub(crate::output::Output::print_registers, cut_print_registers)]
+        #[kani::stub(crate::output::Output::print_integer, cut_print_integer)]
+        #[kani::stub(crate::debugger::Debugger::show_assembly_source, cut_show_assembly)]
+        #[kani::stub(crate::debugger::print_help_message, cut_help)]
+        fn $name() { break_body($mask, $n); }}
+    };
+}
+break_cmd!(c11_break_add_n0, cmdh::C_BREAKADD, 0);
+break_cmd!(c11_break_add_n1, cmdh::C_BREAKADD, 1);
+break_cmd!(c11_break_add_n2, cmdh::C_BREAKADD, 2);
+break_cmd!(c11_break_remove_n1, cmdh::C_BREAKREMOVE, 1);
+break_cmd!(c11_break_remove_n2, cmdh::C_BREAKREMOVE, 2);
+break_cmd!(c11_break_list_n2, cmdh::C_BREAKLIST, 2);
 
 // ------------------------------------------------------------------ C12: reset
 dbg_attrs! {
@@ -423,33 +471,43 @@ fn c12_reset() {
 
 /// the saved initial machine is never altered: one arbitrary command of any kind except eval (which by
 /// signature only receives the live machine) and reset (above)
-dbg_attrs! { fn c12_initial_state_immutable() {
+fn immutable_body(mask: u32) {
     crate::features::verif_h::set_stack(kani::any());
     let mut s = any_state();
     let orig = orig_of(&s);
     let mut d = any_debugger(&mut s, St::Wait);
     let _l = bind_label(orig);
     Output::set_minimal(true);
-    cmdh::allow(0x3FFFF & !(cmdh::C_EVAL | cmdh::C_RESET | cmdh::C_HELP | cmdh::C_ASSEMBLY), 1, false);
+    cmdh::allow(mask, 1, false);
     let probe: u16 = kani::any();
     let init = snap(&d.initial_state);
     let init_probe = peek(&d.initial_state, probe);
     let _ = d.run_command(&mut s);
     assert_unchanged(&d.initial_state, &init, probe, init_probe);
     assert!(orig_of(&d.initial_state) == orig);
-    kani::cover!(matches!(cmdh::last(), Some(r) if r.sel == 7 && !r.is_reg));
-    kani::cover!(matches!(cmdh::last(), Some(r) if r.sel == 16));
+    kani::cover!(cmdh::last().is_some(), "a command was executed");
     core::mem::forget(d);
-}}
+}
+macro_rules! immutable {
+    ($name:ident, $mask:expr) => {
+        dbg_attrs! { fn $name() { immutable_body($mask); }}
+    };
+}
+immutable!(c12_immutable_move, cmdh::C_MOVE);
+immutable!(c12_immutable_goto, cmdh::C_GOTO);
+immutable!(c12_immutable_control, cmdh::C_STEPOVER | cmdh::C_STEPINTO | cmdh::C_STEPOUT | cmdh::C_CONTINUE | cmdh::C_QUIT | cmdh::C_EXIT);
+immutable!(c12_immutable_break, cmdh::C_BREAKADD | cmdh::C_BREAKREMOVE);
+immutable!(c12_immutable_inspect, cmdh::C_PRINT | cmdh::C_REGISTERS | cmdh::C_ECHO | cmdh::C_BREAKLIST);
 
 // ------------------------------------------------------------------ C09/C13: inspection commands change nothing
-dbg_attrs! { fn c13_inspection_readonly() {
+fn inspection_body(mask: u32, lkind: Option<u8>, is_reg: Option<bool>) {
+    cmdh::fix_form(lkind, is_reg);
     let mut s = any_state();
     let orig = orig_of(&s);
     let mut d = any_debugger(&mut s, St::Wait);
     let _l = bind_label(orig);
     Output::set_minimal(true);
-    cmdh::allow(cmdh::C_PRINT | cmdh::C_REGISTERS | cmdh::C_ECHO | cmdh::C_HELP | cmdh::C_ASSEMBLY | cmdh::C_BREAKLIST, 1, false);
+    cmdh::allow(mask, 1, false);
     let probe: u16 = kani::any();
     let pre = snap(&s);
     let pre_probe = peek(&s, probe);
@@ -460,11 +518,22 @@ dbg_attrs! { fn c13_inspection_readonly() {
     assert!(capture::len() == 0, "inspection command wrote to the program's output");
     assert!(matches!(d.status, Status::WaitForAction));
     assert!(d.breakpoints.len() == n_bp);
-    kani::cover!(matches!(cmdh::last(), Some(r) if r.sel == 6 && !r.is_reg && r.lkind == 2));
-    kani::cover!(matches!(cmdh::last(), Some(r) if r.sel == 9));
-    kani::cover!(matches!(cmdh::last(), Some(r) if r.sel == 5));
+    kani::cover!(cmdh::last().is_some(), "a command was executed");
     core::mem::forget(d);
-}}
+}
+macro_rules! inspection {
+    ($name:ident, $mask:expr, $lkind:expr, $is_reg:expr) => {
+        dbg_attrs! { fn $name() { inspection_body($mask, $lkind, $is_reg); }}
+    };
+}
+inspection!(c13_print_reg, cmdh::C_PRINT, Some(0), Some(true));
+inspection!(c13_print_addr, cmdh::C_PRINT, Some(0), Some(false));
+inspection!(c13_print_pcoff, cmdh::C_PRINT, Some(1), Some(false));
+inspection!(c13_print_label, cmdh::C_PRINT, Some(2), Some(false));
+inspection!(c13_registers, cmdh::C_REGISTERS, None, None);
+inspection!(c13_echo_help, cmdh::C_ECHO | cmdh::C_HELP, None, None);
+inspection!(c13_assembly, cmdh::C_ASSEMBLY, None, Some(false));
+inspection!(c13_breaklist, cmdh::C_BREAKLIST, None, None);
 
 // ------------------------------------------------------------------ C11: marker re-arming when an instruction executes
 #[kani::proof]
